@@ -95,7 +95,10 @@ func runC04(e *Env) {
 		"(JUMP_FORWARD/RETURN_VALUE between the loop head and the backward jump); " +
 		"plus template-string programs (fragment list incl. empty interpolations x expression context x placement; non-trivial when the template has a `{}`) " +
 		"and nested-loop programs (7 loop forms x 4 containers x exit by exhaustion/break/continue/return, main code or function; a case is one program; " +
-		"non-trivial when a loop without loop variables ends by exhaustion inside another loop)"
+		"non-trivial when a loop without loop variables ends by exhaustion inside another loop) " +
+		"and literal / membership programs (list literals of 0..700 items, `in` / `not in` with identifier / constant / computed subjects against literal lists of constants, " +
+		"literal lists with computed items and variables x 4 expression contexts x 4 loop placements; a case is one program; non-trivial when a literal has more than 256 items " +
+		"or a computed subject is tested against a literal list of constants)"
 	nProg := 2500
 	if !e.Quick {
 		nProg = 60000
@@ -105,6 +108,7 @@ func runC04(e *Env) {
 	funrng := e.Rng.Fork().Fork().Fork() // the function-fragment generator's stream (c04fun.go)
 	mvrng := e.Rng.Fork().Fork().Fork().Fork() // the multi-variable statement generator's stream (c04multi.go)
 	obsrng := e.Rng.Fork().Fork().Fork().Fork().Fork() // template strings and nested loops with observed runs (c04obs.go)
+	litrng := e.Rng.Fork().Fork().Fork().Fork().Fork().Fork() // list literals of every length and membership tests (c04lit.go)
 	for i := 0; i < nProg; i++ {
 		r := rng.Fork()
 		o := GenOpts{MaxStmts: 3 + r.Intn(3), MaxDepth: 2 + r.Intn(3), Budget: 60 + r.Intn(200), Funcs: true, Closures: true,
@@ -118,6 +122,7 @@ func runC04(e *Env) {
 	}
 	c04Multi(e, mvrng)
 	c04Obs(e, obsrng)
+	c04Lit(e, litrng)
 	c04Directed(e)
 	c04FragDeep(e)
 	// repository scripts
